@@ -1,6 +1,7 @@
 import IV.Lemmas.Rpm
 import IV.Lemmas.RpmRef
 import IV.Lemmas.RpmLex
+import IV.Lemmas.RpmPkg
 /-!
 C13 — package version comparison is RPM's ordering: agreement with RPM's `rpmvercmp()`
 (`vercmp_eq_reference`, against the transcription in Model/RpmRef.lean), the comparison as a
@@ -391,5 +392,278 @@ example : vercmp "1.0a".toList "1.0.1".toList = -1 := by decide
 example : vercmp "1é2".toList "1.2".toList = 0 := by decide
 example : vercmp "1.0".toList "1.0~rc1".toList ≤ 0 → False := by decide
 example : pyMax [⟨0, "1".toList, "1".toList⟩, ⟨1, "0".toList, "1".toList⟩] = some ⟨1, "0".toList, "1".toList⟩ := by decide
+
+/-! ### round 10: equality is compatible with the order -/
+
+theorem evrCmp_range (x y : Evr) : evrCmp x y = -1 ∨ evrCmp x y = 0 ∨ evrCmp x y = 1 := by
+  have h1 := vercmp_range x.version y.version
+  have h2 := vercmp_range x.release y.release
+  unfold evrCmp
+  split
+  · simp
+  · split
+    · simp
+    · simp only []
+      split <;> assumption
+example : evrCmp ⟨1, "1".toList, "1".toList⟩ ⟨0, "9".toList, "9".toList⟩ = 1 := by decide
+
+/-- packages that compare equal are interchangeable on the left of every comparison … -/
+theorem evrCmp_congr_left (a b c : Evr) (h : evrCmp a b = 0) : evrCmp a c = evrCmp b c := by
+  have ab := evrCmp_antisymm a b
+  have ac := evrCmp_antisymm a c
+  have bc := evrCmp_antisymm b c
+  have r1 := evrCmp_range a c
+  have r2 := evrCmp_range b c
+  have t1 : evrCmp b c ≤ 0 → evrCmp a c ≤ 0 := fun k => evrCmp_trans_le a b c (by omega) k
+  have t2 : evrCmp a c ≤ 0 → evrCmp b c ≤ 0 := fun k => evrCmp_trans_le b a c (by omega) k
+  have t3 : evrCmp c a ≤ 0 → evrCmp c b ≤ 0 := fun k => evrCmp_trans_le c a b k (by omega)
+  have t4 : evrCmp c b ≤ 0 → evrCmp c a ≤ 0 := fun k => evrCmp_trans_le c b a k (by omega)
+  omega
+example : evrCmp ⟨0, "1.05".toList, "1".toList⟩ ⟨0, "1.5".toList, "01".toList⟩ = 0 := by decide
+
+/-- … and on the right -/
+theorem evrCmp_congr_right (a b c : Evr) (h : evrCmp a b = 0) : evrCmp c a = evrCmp c b := by
+  have := evrCmp_congr_left a b c h
+  have := evrCmp_antisymm c a
+  have := evrCmp_antisymm c b
+  omega
+
+/-- `==` on packages is symmetric (also in raising) -/
+theorem pkgEq_symm (a b : Pkg) : pkgEq a b = pkgEq b a := by
+  obtain ⟨an, ae⟩ := a
+  obtain ⟨bn, be⟩ := b
+  have anti := evrCmp_antisymm ae be
+  by_cases hn : an = bn
+  · subst hn
+    simp only [pkgEq, ne_eq, not_true_eq_false, if_false, Option.some.injEq]
+    rw [Bool.eq_iff_iff]
+    simp only [beq_iff_eq]
+    omega
+  · have hn' : ¬ bn = an := fun h => hn h.symm
+    simp [pkgEq, hn, hn']
+example : pkgEq ⟨"a".toList, ⟨0, "1".toList, "1".toList⟩⟩ ⟨"a".toList, ⟨0, "01".toList, "1".toList⟩⟩ = some true := by decide
+
+theorem pkgEq_some_true (a b : Pkg) : pkgEq a b = some true ↔ (a.name = b.name ∧ evrCmp a.evr b.evr = 0) := by
+  by_cases hn : a.name = b.name <;> simp [pkgEq, hn]
+example : pkgEq ⟨"a".toList, ⟨0, "1".toList, "1".toList⟩⟩ ⟨"b".toList, ⟨0, "1".toList, "1".toList⟩⟩ = none := by decide
+
+/-- `==` is transitive: with reflexivity (`ops_agree`, `evrCmp_refl`) and symmetry an equivalence per name -/
+theorem pkgEq_trans (a b c : Pkg) (h1 : pkgEq a b = some true) (h2 : pkgEq b c = some true) :
+    pkgEq a c = some true := by
+  rw [pkgEq_some_true] at *
+  obtain ⟨n1, e1⟩ := h1
+  obtain ⟨n2, e2⟩ := h2
+  refine ⟨n1.trans n2, ?_⟩
+  rw [evrCmp_congr_left _ _ _ e1]; exact e2
+example : pkgEq ⟨"a".toList, ⟨0, "1.0".toList, "1".toList⟩⟩ ⟨"a".toList, ⟨0, "1_0".toList, "1".toList⟩⟩ = some true := by decide
+
+/-- a package that is `==` to another one answers every operator against a third like the other one does:
+the operators respect the equivalence, they cannot tell RPM-equal packages apart -/
+theorem pkgEq_compat (a b c : Pkg) (h : pkgEq a b = some true) :
+    pkgEq a c = pkgEq b c ∧ pkgLt a c = pkgLt b c ∧ pkgLt c a = pkgLt c b ∧
+    pkgNe a c = pkgNe b c ∧ pkgLe a c = pkgLe b c ∧ pkgGt a c = pkgGt b c ∧ pkgGe a c = pkgGe b c := by
+  rw [pkgEq_some_true] at h
+  obtain ⟨hn, he⟩ := h
+  have l := evrCmp_congr_left _ _ c.evr he
+  have r := evrCmp_congr_right _ _ c.evr he
+  have e1 : pkgEq a c = pkgEq b c := by simp only [pkgEq, hn, l]
+  have e2 : pkgEq c a = pkgEq c b := by simp only [pkgEq, hn, r]
+  have e3 : pkgLt a c = pkgLt b c := by simp only [pkgLt, e1, l]
+  have e4 : pkgLt c a = pkgLt c b := by simp only [pkgLt, e2, r]
+  simp only [pkgNe, pkgLe, pkgGt, pkgGe, e1, e3, e4, and_self]
+
+/-- equal exactly when neither is older: `a == b ⇔ not a < b and not b < a` -/
+theorem eq_iff_not_lt_not_gt (a b : Pkg) (hn : a.name = b.name) :
+    pkgEq a b = some true ↔ (pkgLt a b = some false ∧ pkgLt b a = some false) := by
+  rcases trichotomy a b hn with ⟨h1, h2, h3⟩ | ⟨h1, h2, h3⟩ | ⟨h1, h2, h3⟩
+  · simp [h1, h2]
+  · have : pkgLt b a = some false := h3
+    simp [h1, h2, this]
+  · have : pkgLt b a = some true := h3
+    simp [h1, h2, this]
+example : pkgLt ⟨"a".toList, ⟨0, "1".toList, "1".toList⟩⟩ ⟨"a".toList, ⟨0, "1".toList, "2".toList⟩⟩ = some true := by decide
+
+/-! ### round 10: the `left is right` shortcut, operands that are not packages -/
+
+/-- the identity shortcut of `rpm_version_compare` changes no result -/
+theorem evrCmpId_eq (same : Bool) (l r : Evr) (h : same = true → l = r) : evrCmpId same l r = evrCmp l r := by
+  cases same with
+  | false => simp [evrCmpId]
+  | true => have := h rfl; subst this; simp [evrCmpId, evrCmp_refl]
+example : evrCmpId true ⟨3, "1".toList, []⟩ ⟨3, "1".toList, []⟩ = 0 := by decide
+
+/-- an operand that is not a package is never ordered against one, and no operator raises -/
+theorem ops_foreign (a : Pkg) :
+    opEq a .other = some false ∧ opNe a .other = some true ∧ opLt a .other = some false ∧
+    opLe a .other = some false ∧ opGt a .other = some false ∧ opGe a .other = some false := by
+  simp [opEq, opNe, opLt, opLe, opGt, opGe]
+example : opNe ⟨"a".toList, ⟨0, [], []⟩⟩ .other = some true := by decide
+
+/-- with a package operand the operators are the `pkg*` functions of `ops_agree` / `trichotomy` -/
+theorem ops_pkg (a b : Pkg) :
+    opEq a (.pkg b) = pkgEq a b ∧ opNe a (.pkg b) = pkgNe a b ∧ opLt a (.pkg b) = pkgLt a b ∧
+    opLe a (.pkg b) = pkgLe a b ∧ opGt a (.pkg b) = pkgGt a b ∧ opGe a (.pkg b) = pkgGe a b := by
+  simp [opEq, opNe, opLt, opLe, opGt, opGe, pkgNe]
+example : opLt ⟨"a".toList, ⟨0, "1".toList, []⟩⟩ (.pkg ⟨"a".toList, ⟨0, "2".toList, []⟩⟩) = some true := by decide
+
+/-! ### round 10: the short package string -/
+
+/-- `name-version-release.arch` parses back to its fields, whatever dashes, dots and digits the NAME has -/
+theorem parsePackage_print (archs : List Str) (name version release arch : Str)
+    (hv : '-' ∉ version) (hv0 : version ≠ []) (hvc : ':' ∉ version)
+    (hr : '-' ∉ release) (hr0 : release ≠ [])
+    (ha : arch ∈ archs) (ha1 : '.' ∉ arch) (ha2 : '-' ∉ arch) (ha0 : arch ≠ [])
+    (ho : (startsWith "oracleasm".toList name && endsWith ".el5".toList name) = false) :
+    parsePackage archs (printPackage name none version release arch)
+      = some ⟨name, "0".toList, version, release, some arch⟩ := by
+  have hs : printPackage name none version release arch
+      = (name ++ '-' :: version ++ '-' :: release) ++ '.' :: arch := by simp [printPackage]
+  have s1 := archSep_dot (name ++ '-' :: version ++ '-' :: release) arch ha1 ha2
+  have s2 := rsplit_append '.' (name ++ '-' :: version ++ '-' :: release) arch ha1 ha0
+  have s3 := rsplit_append '-' (name ++ '-' :: version) release hr hr0
+  have s4 := rsplit_append '-' name version hv hv0
+  have s5 := splitFirst_none ':' version hvc
+  rw [hs]
+  simp only [parsePackage, s1, s2, ha, if_true, s3, s4, s5, ho, Option.bind_eq_bind, Option.bind_some,
+    Bool.false_eq_true, if_false, Option.pure_def]
+example : parsePackage ["x".toList] "k-rt-3.1-7.el7.x".toList
+    = some ⟨"k-rt".toList, "0".toList, "3.1".toList, "7.el7".toList, some "x".toList⟩ := by decide
+
+/-- the same with an epoch in front of the version (`name-epoch:version-release.arch`) -/
+theorem parsePackage_print_epoch (archs : List Str) (name epoch version release arch : Str)
+    (hv : '-' ∉ version) (he : '-' ∉ epoch) (hec : ':' ∉ epoch)
+    (hr : '-' ∉ release) (hr0 : release ≠ [])
+    (ha : arch ∈ archs) (ha1 : '.' ∉ arch) (ha2 : '-' ∉ arch) (ha0 : arch ≠ [])
+    (ho : (startsWith "oracleasm".toList name && endsWith ".el5".toList name) = false) :
+    parsePackage archs (printPackage name (some epoch) version release arch)
+      = some ⟨name, epoch, version, release, some arch⟩ := by
+  have hs : printPackage name (some epoch) version release arch
+      = (name ++ '-' :: (epoch ++ ':' :: version) ++ '-' :: release) ++ '.' :: arch := by simp [printPackage]
+  have hev : '-' ∉ epoch ++ ':' :: version := by
+    simp only [List.mem_append, List.mem_cons, not_or]
+    exact ⟨he, by decide, hv⟩
+  have hev0 : epoch ++ ':' :: version ≠ [] := by simp
+  have s1 := archSep_dot (name ++ '-' :: (epoch ++ ':' :: version) ++ '-' :: release) arch ha1 ha2
+  have s2 := rsplit_append '.' (name ++ '-' :: (epoch ++ ':' :: version) ++ '-' :: release) arch ha1 ha0
+  have s3 := rsplit_append '-' (name ++ '-' :: (epoch ++ ':' :: version)) release hr hr0
+  have s4 := rsplit_append '-' name (epoch ++ ':' :: version) hev hev0
+  have s5 := splitFirst_append ':' epoch version hec
+  rw [hs]
+  simp only [parsePackage, s1, s2, ha, if_true, s3, s4, s5, ho, Option.bind_eq_bind, Option.bind_some,
+    Bool.false_eq_true, if_false, Option.pure_def]
+example : parsePackage ["x".toList] "b-32:9.1-2.P2.x".toList
+    = some ⟨"b".toList, "32".toList, "9.1".toList, "2.P2".toList, some "x".toList⟩ := by decide
+
+/-- a string without a recognised architecture at its end is `name-version-release` as a whole (the release keeps
+its dots: `3.el7` stays `3.el7`) -/
+theorem parsePackage_print_noarch (archs : List Str) (name version release p t : Str)
+    (hsplit : rsplit (name ++ '-' :: version ++ '-' :: release) (archSep (name ++ '-' :: version ++ '-' :: release)) = some (p, t))
+    (ht : t ∉ archs)
+    (hv : '-' ∉ version) (hv0 : version ≠ []) (hvc : ':' ∉ version)
+    (hr : '-' ∉ release) (hr0 : release ≠ [])
+    (ho : (startsWith "oracleasm".toList name && endsWith ".el5".toList name) = false) :
+    parsePackage archs (name ++ '-' :: version ++ '-' :: release)
+      = some ⟨name, "0".toList, version, release, none⟩ := by
+  have s3 := rsplit_append '-' (name ++ '-' :: version) release hr hr0
+  have s4 := rsplit_append '-' name version hv hv0
+  have s5 := splitFirst_none ':' version hvc
+  simp only [parsePackage, hsplit, ht, if_false, s3, s4, s5, ho, Option.bind_eq_bind, Option.bind_some,
+    Bool.false_eq_true, Option.pure_def]
+example : rsplit "b-1-3.el7".toList (archSep "b-1-3.el7".toList) = some ("b-1-3".toList, "el7".toList) ∧
+    parsePackage ["x".toList] "b-1-3.el7".toList = some ⟨"b".toList, "0".toList, "1".toList, "3.el7".toList, none⟩ := by decide
+
+/-- `oracleasm-<kernel version>.el5-version-release.arch`: the package is what stands before the FIRST dash of the
+name, the kernel version goes in front of the version -/
+theorem parsePackage_print_oracleasm (archs : List Str) (h k version release arch : Str)
+    (hh : '-' ∉ h)
+    (ho : (startsWith "oracleasm".toList (h ++ '-' :: k) && endsWith ".el5".toList (h ++ '-' :: k)) = true)
+    (hv : '-' ∉ version) (hv0 : version ≠ []) (hvc : ':' ∉ version)
+    (hr : '-' ∉ release) (hr0 : release ≠ [])
+    (ha : arch ∈ archs) (ha1 : '.' ∉ arch) (ha2 : '-' ∉ arch) (ha0 : arch ≠ []) :
+    parsePackage archs (printPackage (h ++ '-' :: k) none version release arch)
+      = some ⟨h, "0".toList, k ++ '-' :: version, release, some arch⟩ := by
+  have hs : printPackage (h ++ '-' :: k) none version release arch
+      = ((h ++ '-' :: k) ++ '-' :: version ++ '-' :: release) ++ '.' :: arch := by simp [printPackage]
+  have s1 := archSep_dot ((h ++ '-' :: k) ++ '-' :: version ++ '-' :: release) arch ha1 ha2
+  have s2 := rsplit_append '.' ((h ++ '-' :: k) ++ '-' :: version ++ '-' :: release) arch ha1 ha0
+  have s3 := rsplit_append '-' ((h ++ '-' :: k) ++ '-' :: version) release hr hr0
+  have s4 := rsplit_append '-' (h ++ '-' :: k) version hv hv0
+  have s5 := splitFirst_none ':' version hvc
+  have s6 := splitFirst_append '-' h k hh
+  rw [hs]
+  simp only [parsePackage, s1, s2, ha, if_true, s3, s4, s5, s6, ho, Option.bind_eq_bind, Option.bind_some,
+    Option.pure_def]
+example : parsePackage ["x".toList] "oracleasm-2.6-1.el5-2.0-1.x".toList
+    = some ⟨"oracleasm".toList, "0".toList, "2.6-1.el5-2.0".toList, "1".toList, some "x".toList⟩ := by decide
+
+/-- a string without '.' and '-' is no package string: the parse raises -/
+theorem parsePackage_no_sep (archs : List Str) (s : Str) (h1 : '.' ∉ s) (h2 : '-' ∉ s) :
+    parsePackage archs s = none := by
+  have r1 : '.' ∉ s.reverse := by simpa using h1
+  have r2 : '-' ∉ s.reverse := by simpa using h2
+  have s1 : archSep s = '-' := by simp only [archSep, archSepRev_none s.reverse r1 r2]
+  simp only [parsePackage, s1, rsplit_none '-' s h2, Option.bind_eq_bind, Option.bind_none]
+example : parsePackage [] "bash".toList = none := by decide
+
+/-- the epoch rule of `InstalledRpm.__init__`: `(none)` and a missing epoch are epoch 0 -/
+theorem epoch_none_is_zero : epochOf none = "0".toList ∧ epochOf (some "(none)".toList) = "0".toList ∧
+    pyIntDec (epochOf none) = some 0 ∧ pyIntDec (epochOf (some "(none)".toList)) = some 0 := by decide
+example : pyIntDec (epochOf (some "32".toList)) = some 32 := by decide
+
+/-! ### round 10: hashing -/
+
+/-- the hash is a function of name, version, release and arch: packages that agree on them hash alike -/
+theorem hashKey_congr (f g : Fields) (h1 : f.name = g.name) (h2 : f.version = g.version)
+    (h3 : f.release = g.release) (h4 : f.arch = g.arch) : hashKey f = hashKey g := by
+  simp [hashKey, h1, h2, h3, h4]
+example : hashKey ⟨"a".toList, "0".toList, "1".toList, "2".toList, none⟩ = "a-1-2".toList := by decide
+
+/-- Python's contract for `__hash__` (objects that are `==` hash alike), as a statement about the model -/
+def HashAgreesWithEq : Prop :=
+  ∀ (f g : Fields) (e1 e2 : Int), pkgEq (pkgOf f e1) (pkgOf g e2) = some true → hashKey f = hashKey g
+
+/-- what does hold: packages with the same text (and epoch) are `==` and hash alike -/
+theorem hash_agrees_partial (f g : Fields) (e : Int) (h1 : f.name = g.name) (h2 : f.version = g.version)
+    (h3 : f.release = g.release) (h4 : f.arch = g.arch) :
+    pkgEq (pkgOf f e) (pkgOf g e) = some true ∧ hashKey f = hashKey g := by
+  refine ⟨?_, hashKey_congr f g h1 h2 h3 h4⟩
+  rw [pkgEq_some_true]
+  refine ⟨h1, ?_⟩
+  simp only [pkgOf, h2, h3]
+  exact evrCmp_refl _
+example : pkgEq (pkgOf ⟨"a".toList, [], "1".toList, "2".toList, none⟩ 3) (pkgOf ⟨"a".toList, [], "1".toList, "2".toList, none⟩ 3) = some true := by decide
+
+/-- the full contract is false of the code as it is: `a-1.05-1` == `a-1.5-1` (RPM-equal), different hashed strings -/
+theorem hash_agrees_witness : ¬ HashAgreesWithEq := by
+  intro h
+  have := h ⟨"a".toList, "0".toList, "1.05".toList, "1".toList, none⟩ ⟨"a".toList, "0".toList, "1.5".toList, "1".toList, none⟩ 0 0 (by decide)
+  revert this
+  decide
+
+/-! ### round 10: look-up by name in front of max / min -/
+
+theorem getMax_absent (pkgs : List (Str × List Evr)) (name : Str) (h : lookup name pkgs = none) :
+    getMax pkgs name = none ∧ getMin pkgs name = none := by
+  simp [getMax, getMin, h]
+example : getMax [("a".toList, [⟨0, [], []⟩])] "b".toList = none := by decide
+
+/-- `get_max(name)` / `get_min(name)` return a build listed under that name that no listed build exceeds / is below -/
+theorem getMax_is_max (pkgs : List (Str × List Evr)) (name : Str) (m : Evr) (h : getMax pkgs name = some m) :
+    ∃ xs, lookup name pkgs = some xs ∧ m ∈ xs ∧ ∀ y ∈ xs, evrCmp y m ≤ 0 := by
+  cases hl : lookup name pkgs with
+  | none => simp [getMax, hl] at h
+  | some xs =>
+    simp only [getMax, hl, Option.bind_some] at h
+    exact ⟨xs, rfl, newest_is_max xs m h⟩
+example : getMax [("a".toList, [⟨0, "1".toList, []⟩, ⟨0, "2".toList, []⟩])] "a".toList = some ⟨0, "2".toList, []⟩ := by decide
+
+theorem getMin_is_min (pkgs : List (Str × List Evr)) (name : Str) (m : Evr) (h : getMin pkgs name = some m) :
+    ∃ xs, lookup name pkgs = some xs ∧ m ∈ xs ∧ ∀ y ∈ xs, evrCmp m y ≤ 0 := by
+  cases hl : lookup name pkgs with
+  | none => simp [getMin, hl] at h
+  | some xs =>
+    simp only [getMin, hl, Option.bind_some] at h
+    exact ⟨xs, rfl, oldest_is_min xs m h⟩
+example : getMin [("a".toList, [⟨0, "1".toList, []⟩, ⟨0, "2".toList, []⟩])] "a".toList = some ⟨0, "1".toList, []⟩ := by decide
 
 end IV.Rpm
